@@ -14,6 +14,7 @@
 #pragma once
 
 #include <pistache/typeid.h>
+#include <pistache/verif_hooks.h>
 
 #include <atomic>
 #include <condition_variable>
@@ -348,6 +349,7 @@ namespace Pistache::Async
                 }
                 catch (const InternalRethrow& e)
                 {
+                    PV_LOCK(chain_->mtx, "chain.rethrow.lock");
                     std::unique_lock<std::mutex> guard(chain_->mtx);
                     chain_->exc   = e.exc;
                     chain_->state = State::Rejected;
@@ -434,6 +436,7 @@ namespace Pistache::Async
                 void doReject(const std::shared_ptr<CoreT<T>>& core) override
                 {
                     reject_(core->exc);
+                    PV_LOCK(this->chain_->mtx, "chain.reject.lock");
                     std::unique_lock<std::mutex> guard(this->chain_->mtx);
                     for (const auto& req : this->chain_->requests)
                     {
@@ -445,8 +448,12 @@ namespace Pistache::Async
                 void finishResolve(Ret&& ret) const
                 {
                     typedef typename std::decay<Ret>::type CleanRet;
+                    PV_YIELD("chain.begin");
+                    PV_LOCK(this->chain_->mtx, "chain.lock");
                     std::unique_lock<std::mutex> guard(this->chain_->mtx);
+                    PV_YIELD("chain.locked");
                     this->chain_->template construct<CleanRet>(std::forward<Ret>(ret));
+                    PV_YIELD("chain.constructed");
                     for (const auto& req : this->chain_->requests)
                     {
                         req->resolve(this->chain_);
@@ -481,6 +488,7 @@ namespace Pistache::Async
                 void doReject(const std::shared_ptr<CoreT<void>>& core) override
                 {
                     reject_(core->exc);
+                    PV_LOCK(this->chain_->mtx, "chain.reject.lock");
                     std::unique_lock<std::mutex> guard(this->chain_->mtx);
                     for (const auto& req : this->chain_->requests)
                     {
@@ -858,8 +866,12 @@ namespace Pistache::Async
                 throw Error("Attempt to resolve a void promise with arguments");
             }
 
+            PV_YIELD("resolve.checked");
+            PV_LOCK(core_->mtx, "resolve.lock");
             std::unique_lock<std::mutex> guard(core_->mtx);
+            PV_YIELD("resolve.locked");
             core_->construct<Type>(std::forward<Arg>(arg));
+            PV_YIELD("resolve.constructed");
 
             for (const auto& req : core_->requests)
             {
@@ -920,9 +932,13 @@ namespace Pistache::Async
             if (core_->state != State::Pending)
                 throw Error("Attempt to reject a fulfilled promise");
 
+            PV_YIELD("reject.checked");
+            PV_LOCK(core_->mtx, "reject.lock");
             std::unique_lock<std::mutex> guard(core_->mtx);
+            PV_YIELD("reject.locked");
             core_->exc   = std::make_exception_ptr(exc);
             core_->state = State::Rejected;
+            PV_YIELD("reject.stored");
             for (const auto& req : core_->requests)
             {
                 req->reject(core_);
@@ -1127,7 +1143,10 @@ namespace Pistache::Async
                 Continuation;
             std::shared_ptr<Private::Request> req = std::make_shared<Continuation>(promise.core_, resolveFunc, rejectFunc);
 
+            PV_YIELD("then.begin");
+            PV_LOCK(core_->mtx, "then.lock");
             std::unique_lock<std::mutex> guard(core_->mtx);
+            PV_YIELD("then.locked");
             if (isFulfilled())
             {
                 req->resolve(core_);
@@ -1136,8 +1155,10 @@ namespace Pistache::Async
             {
                 req->reject(core_);
             }
+            PV_YIELD("then.checked");
 
             core_->requests.push_back(req);
+            PV_YIELD("then.pushed");
 
             return promise;
         }
